@@ -369,7 +369,7 @@ func c09Alphabet(tier string) []map[string]interface{} {
 	}
 	ids := c09Docs[:2]
 	for di, d := range ids {
-		for _, doc := range docs[:len(docs)-2*di] {
+		for _, doc := range docs[di : len(docs)-di] { // d1: all four; d2: the two middle ones (so that {0,-1} and {x,x} coexist)
 			al = append(al, map[string]interface{}{"op": "addDoc", "d": d, "doc": doc})
 		}
 		al = append(al, map[string]interface{}{"op": "removeDoc", "d": d})
